@@ -813,12 +813,15 @@ func (w *World) opRefs(op Op) {
 		w.x.viol([]string{"C07"}, "referrers.unknown-status", strconv.Itoa(r.Code), fmt.Sprintf("referrers/%s in %s answered %d %q, want 200 with an index", subj, repo, r.Code, trunc(r.Body, 100)))
 		return
 	}
+	unannounced := ""
 	checkPage := func(r *Resp, first bool) {
 		if ct := normCT(r.H.Get("Content-Type")); ct != mtOCIIndex {
 			w.x.viol([]string{"C07"}, "referrers.descriptor", "response Content-Type", fmt.Sprintf("referrers response has Content-Type %q", ct))
 		}
 		if op.Filter != "" {
 			if got := r.H.Get("OCI-Filters-Applied"); got != "artifactType" {
+				// without the header the client must take the response as unfiltered (and filter itself);
+				// that is only wrong when the response actually is a filtered subset - decided below
 				which := "first response"
 				if !first {
 					which = "follow-up page"
@@ -826,7 +829,7 @@ func (w *World) opRefs(op Op) {
 				if w.x.extra["refsRepeat"] == true && first {
 					which = "repeated (cached) response"
 				}
-				w.x.viol([]string{"C07"}, "referrers.filter-header", which, fmt.Sprintf("filtered referrers request (%s) answered without OCI-Filters-Applied (got %q)", which, got))
+				unannounced = which
 			}
 		}
 		if limit > 0 && int64(len(r.Body)) > limit {
@@ -875,6 +878,10 @@ func (w *World) opRefs(op Op) {
 	wantN := 0
 	for _, d := range must {
 		if !match(d) {
+			if _, listed := got[d]; !listed && unannounced != "" {
+				w.x.viol([]string{"C07"}, "referrers.filter-header", unannounced, fmt.Sprintf("referrers of %s with artifactType=%q: the %s carries no OCI-Filters-Applied header although it is filtered (%s with artifactType %q is left out)", subj, op.Filter, unannounced, d, mr.mans[d].artifactType()))
+				unannounced = ""
+			}
 			continue
 		}
 		wantN++
